@@ -237,6 +237,47 @@ def go_pairs():
                 yield base, (a + go + b).join(sts)
 
 
+def _ci(x):
+    if isinstance(x, str):
+        return x.lower()
+    if isinstance(x, (list, tuple)):
+        return [_ci(y) for y in x]
+    return x
+
+
+def compare_ci(ctx, a, b):
+    """two spellings that differ in the letter case of ONE word: same number of statements, same statement types, same tree shape — leaf values compared
+    case-insensitively (the word itself may end up as a Name leaf, e.g. in front of a parenthesis)"""
+    try:
+        pa, pb = sqlparse.parse(a), sqlparse.parse(b)
+    except Exception as e:
+        ctx.fail('parse raised ' + type(e).__name__, [a, b], observed=repr(e)[:200], required='trees', sweep='dictionary-case')
+        return
+    ctx.evaluations += 1
+    sa, sb = [shape(st) for st in pa], [shape(st) for st in pb]
+    if len(pa) != len(pb) or [st.get_type() for st in pa] != [st.get_type() for st in pb] or _ci(sa) != _ci(sb):
+        ctx.fail('re-casing one word changed the tree (statement count, types or shape)', [a, b], observed=str(sb)[:300], required=str(sa)[:300], sweep='dictionary-case')
+
+
+def dictionary_case_pairs(ctx):
+    """EVERY dictionary word, in positions where a keyword and a name group differently, spelled upper / lower / capitalised / swapped: the tree shape
+    must not depend on the letter case of a keyword (a word that is a keyword in one casing and a name in another shows here)"""
+    import props.C18 as C18
+    rng = ctx.rng
+    words = [w for w in C18.all_dictionary_words() if ' ' not in w and w.isalpha()]
+    # (word operators like DIV are Operator leaves, whose value the shape comparison keeps verbatim: not a keyword-case question)
+    words = [w for w in words if not any(tt in T.Operator and tt not in T.Operator.Comparison for tt, _ in lexer.tokenize(w))]
+    shapes = ['alter table t alter column c %s int', 'select a %s b from t', 'x %s (a) y', 'set a %s b, c = 1', 'select a from t %s u on a = b']
+    n = 0
+    for w in words:
+        for sh in (shapes if not ctx.quick() else rng.sample(shapes, 2)):
+            up = sh % w.upper()
+            for other in (w.lower(), w.capitalize(), w.swapcase() if w != w.upper() else w[:1].lower() + w[1:].upper()):
+                compare_ci(ctx, up, sh % other)
+                n += 1
+    ctx.count('dictionary case pairs', n)
+
+
 def scale_pairs(ctx):
     rng = ctx.rng
     modes = ['double', 'newline', 'crlf', 'lower'] if ctx.quick() else [m for m in MODES if m != 'canon']
@@ -253,6 +294,7 @@ def run(ctx):
     g = grammar.Gen(rng)
     texts = []
     scale_pairs(ctx)
+    dictionary_case_pairs(ctx)
     # systematic part: scripts with the extra constructs, each compared with its canonical spelling under every deterministic mode
     g2 = grammar.Gen(rng, feat=C11_FEAT)
     nsys = 0
@@ -405,5 +447,8 @@ def replay_known(ctx, k):
 
 def replay(ctx, payload):
     n0 = len(ctx.failures)
+    if (payload.get('extra') or {}).get('sweep') == 'dictionary-case':
+        compare_ci(ctx, payload['input'][0], payload['input'][1])
+        return len(ctx.failures) > n0
     compare(ctx, payload['input'][0], payload['input'][1])
     return len(ctx.failures) > n0
